@@ -14,11 +14,82 @@ import (
 type (
 	WaitGroup = sync.WaitGroup
 	Once      = sync.Once
-	Pool      = sync.Pool
 	Map       = sync.Map
 	Cond      = sync.Cond
 	Locker    = sync.Locker
 )
+
+// Pool is a deterministic stand-in for sync.Pool: one LIFO stack, no per-P
+// caches, never emptied by the garbage collector. What Get returns is a
+// function of the Put/Get history alone, so a case replays; and an object put
+// back twice is handed out twice, which is what sync.Pool does as well, only
+// not on every run.
+type Pool struct {
+	New   func() any
+	mu    sync.Mutex
+	items []any
+	known bool
+}
+
+var (
+	poolsMu sync.Mutex
+	pools   []*Pool
+)
+
+// ResetPools empties every pool of the overlaid packages. The worker calls it
+// before each case: what a pool holds is then a function of the case alone,
+// and a case replays in a fresh process.
+func ResetPools() {
+	poolsMu.Lock()
+	ps := append([]*Pool{}, pools...)
+	poolsMu.Unlock()
+	for _, p := range ps {
+		p.mu.Lock()
+		for i := range p.items {
+			p.items[i] = nil
+		}
+		p.items = p.items[:0]
+		p.mu.Unlock()
+	}
+}
+
+func (p *Pool) register() {
+	if !p.known {
+		p.known = true
+		poolsMu.Lock()
+		pools = append(pools, p)
+		poolsMu.Unlock()
+	}
+}
+
+func (p *Pool) Get() any {
+	p.mu.Lock()
+	p.register()
+	if n := len(p.items); n > 0 {
+		x := p.items[n-1]
+		p.items[n-1] = nil
+		p.items = p.items[:n-1]
+		p.mu.Unlock()
+		return x
+	}
+	p.mu.Unlock()
+	if p.New != nil {
+		return p.New()
+	}
+	return nil
+}
+
+func (p *Pool) Put(x any) {
+	if x == nil {
+		return
+	}
+	p.mu.Lock()
+	p.register()
+	if len(p.items) < 1024 {
+		p.items = append(p.items, x)
+	}
+	p.mu.Unlock()
+}
 
 func NewCond(l Locker) *Cond                                   { return sync.NewCond(l) }
 func OnceFunc(f func()) func()                                 { return sync.OnceFunc(f) }
